@@ -209,6 +209,28 @@ func c01History(c *fw.Ctx, w *world, r *fw.Rand, profile string, steps int) {
 					exp.Values = got.Values
 				}
 			}
+			// projected results: outside the reference's projection domain only the
+			// number of documents is asserted; inclusion results are field sets
+			if len(got.Docs) == len(exp.Docs) && got.Err == "" && exp.Err == "" && op.Projection != nil {
+				switch {
+				case m.SkipDocs:
+					c.Count("projected_results_unasserted", 1)
+					exp.Docs = got.Docs
+				case m.LooseDocs:
+					same := true
+					for i := range got.Docs {
+						if !ref.SameFieldSet(got.Docs[i], exp.Docs[i]) {
+							same = false
+						}
+					}
+					if same {
+						exp.Docs = got.Docs
+					}
+					c.Count("projected_results_asserted", 1)
+				default:
+					c.Count("projected_results_asserted", 1)
+				}
+			}
 			if (got.Err == "") == (exp.Err == "") && got.Err != "" {
 				c.Count("failed_calls_agreed", 1)
 				got.Err, exp.Err = "e", "e"
